@@ -38,6 +38,18 @@ func runC18(c *report.Ctx) {
 }
 
 func checkHandleRestore(c *report.Ctx) {
+	// the restore request is served while the init handler is still running (parked, holding the handler
+	// mutex, until the runtime polls): the restore entry point must therefore not take that mutex
+	if w := fn(c, "L/rapid", "(*rapidContext).HandleRestore"); w != nil {
+		n := 0
+		for _, o := range an.LockOps(w) {
+			if o.Acquire && strings.HasSuffix(o.Path, "handlerExecutionMutex") {
+				n++
+			}
+		}
+		del := len(an.CallsTo(w, "L/rapid.handleRestore")) == 1
+		c.Check("R-LOCK", an.FuncName(w)+"/not-serialised-with-init", "HandleRestore does not take the handler mutex (init holds it while it waits for the restore) and delegates to handleRestore", n == 0 && del, fpos(w), 2, "handler-mutex acquisitions: %d; delegates: %v", n, del)
+	}
 	f := fn(c, "L/rapid", "handleRestore")
 	if f == nil {
 		return
